@@ -35,6 +35,15 @@ func genSpec(r *rand.Rand, name string) adapt.TableSpec {
 	default:
 		s.Billing = "PROVISIONED" // no throughput: must be rejected
 	}
+	// key types: mostly strings; a third of the tables have a number or binary partition key, a quarter of the
+	// hash+range tables a number or binary sort key - the key TEXTS are shared between the types (genKey), so a
+	// table that is deleted and re-created under the same name with other key types meets the same texts again
+	if r.Intn(3) == 0 {
+		s.HashT = mon.Pick(r, []string{"N", "B"})
+	}
+	if s.Range != "" && r.Intn(4) == 0 {
+		s.RangeT = mon.Pick(r, []string{"N", "B"})
+	}
 	if r.Intn(2) == 0 {
 		s.Indexes = append(s.Indexes, adapt.IndexSpec{Name: "gsi1", Hash: "g"})
 	}
@@ -42,23 +51,38 @@ func genSpec(r *rand.Rand, name string) adapt.TableSpec {
 		s.Indexes = append(s.Indexes, adapt.IndexSpec{Name: "gsi2", Hash: "g", Range: "s"})
 	}
 	if s.Range != "" && r.Intn(3) == 0 {
-		s.Indexes = append(s.Indexes, adapt.IndexSpec{Name: "lsi1", Hash: "h", Range: "s", Local: true})
+		s.Indexes = append(s.Indexes, adapt.IndexSpec{Name: "lsi1", Hash: "h", HashT: s.HashT, Range: "s", Local: true})
 	}
 	if r.Intn(4) == 0 {
 		// an index over the table's own key attributes ("inverted" for hash+range tables)
 		if s.Range != "" {
-			s.Indexes = append(s.Indexes, adapt.IndexSpec{Name: "gsi4", Hash: "r", Range: "h"})
+			s.Indexes = append(s.Indexes, adapt.IndexSpec{Name: "gsi4", Hash: "r", HashT: s.RangeT, Range: "h", RangeT: s.HashT})
 		} else {
-			s.Indexes = append(s.Indexes, adapt.IndexSpec{Name: "gsi4", Hash: "g", Range: "h"})
+			s.Indexes = append(s.Indexes, adapt.IndexSpec{Name: "gsi4", Hash: "g", Range: "h", RangeT: s.HashT})
 		}
 	}
 	return s
 }
 
+// genTyped renders a key text in the declared key type: strings as they are, numbers from the numeral texts of
+// the pool (other texts map to small numerals), binaries as the bytes of the text.
+func genTyped(t, text string) val.V {
+	switch t {
+	case "N":
+		if _, err := val.ParseDec(text); err == nil {
+			return val.Num(text)
+		}
+		return val.Num(fmt.Sprint(len(text)*7 + int(text[0])))
+	case "B":
+		return val.Bin(text)
+	}
+	return val.Str(text)
+}
+
 func genKey(r *rand.Rand, spec adapt.TableSpec) val.Item {
-	k := val.Item{"h": val.Str(mon.Pick(r, []string{"p", "p.q", "q", "a.b"}))}
+	k := val.Item{"h": genTyped(spec.HashT, mon.Pick(r, []string{"p", "p.q", "1", "10"}))}
 	if spec.Range != "" {
-		k["r"] = val.Str(mon.Pick(r, []string{"1", "10", "a", "b.c"}))
+		k["r"] = genTyped(spec.RangeT, mon.Pick(r, []string{"1", "10", "a", "b.c"}))
 	}
 	return k
 }
@@ -209,17 +233,24 @@ func genOp(r *rand.Rand, m *model.Client, w opWeights, salt int) adapt.Op {
 			}
 			return scanOp(name, index, f, values, rrCanon)
 		}
-		hashAttr, hv := "h", mon.Pick(r, []string{"p", "p.q", "q"})
+		probe := genKey(r, adapt.TableSpec{Hash: "h", HashT: spec.HashT, Range: "r", RangeT: spec.RangeT})
+		hashAttr, hv := "h", probe["h"]
+		if r.Intn(5) == 0 {
+			hv = genTyped(spec.HashT, "q") // a partition that is never written
+		}
 		if index != "" {
 			ix, _ := t.Index(index)
 			hashAttr = ix.Hash
-			if hashAttr == "g" {
-				hv = mon.Pick(r, ixGPool)
-			} else if hashAttr == "s" {
-				hv = mon.Pick(r, ixSPool)
+			switch hashAttr {
+			case "g":
+				hv = val.Str(mon.Pick(r, ixGPool))
+			case "s":
+				hv = val.Str(mon.Pick(r, ixSPool))
+			case "r":
+				hv = probe["r"]
 			}
 		}
-		return queryOp(name, index, keyCondEq(hashAttr, ":h"), nil, val.Item{":h": val.Str(hv)}, r.Intn(2) == 0, rrCanon)
+		return queryOp(name, index, keyCondEq(hashAttr, ":h"), nil, val.Item{":h": hv}, r.Intn(2) == 0, rrCanon)
 	case k < w.mgmt+w.helpers+w.data+w.search+w.batch:
 		// batches only name existing tables with valid, distinct keys (failing batches are C08's business)
 		existing := []string{}
@@ -258,7 +289,7 @@ func genOp(r *rand.Rand, m *model.Client, w opWeights, salt int) adapt.Op {
 			sp := m.Tables[tn].Spec
 			it := genItem(r, sp, salt*10+i)
 			if large {
-				it["h"] = val.Str(fmt.Sprint("big", i))
+				it["h"] = genTyped(sp.HashT, fmt.Sprint(1000+i))
 			}
 			key := m.Tables[tn].KeyOf(it)
 			if seen[tn+key.Canon()] {
